@@ -1717,7 +1717,20 @@ class Quantity(metaclass=QuantityMeta):
         """self ** exp"""
         if not isinstance(exp, int):
             return NotImplemented
-        return self.amount ** exp * self.unit ** exp
+        if exp == 0:
+            return self.amount ** exp * self.unit ** exp
+        if exp == 1:
+            return self
+        # The resulting quantity may get quantized. Therefore we
+        # have to calculate the final amount before creating the result!
+        res_def = UnitDefT(((self.unit, exp),))
+        try:
+            amnt, unit = _amnt_and_unit_from_term(res_def)
+        except KeyError:
+            raise UndefinedResultError(operator.pow,
+                                       self.__class__.__name__, exp) \
+                from None
+        return (self.amount ** exp * amnt) * unit
 
     def __round__(self: Q, n_digits: int = 0) -> Q:
         """Return copy of `self` with its amount rounded to `n_digits`.
